@@ -127,12 +127,43 @@ def check_declared_inputs(model: Model, modname: str, rr: RuleResult):
             fi = edge.fi
             cfg = cfg_of(fi)
             at = cfg.node_for(edge.call)
-            declared_txt = " ".join(norm(x) for x in (edge.inputs, edge.implicit, edge.order_only) if x is not None)
+            # order-only dependencies do not count: ninja does not rebuild an output when an order-only input changes
+            declared_txt = " ".join(norm(x) for x in (edge.inputs, edge.implicit) if x is not None)
             # `implicit=list(variables.values())` / list(inputs) declare every variable
             all_declared = False
+            partial_all = False
+            excluded_keys = set()
+
+            def _declares_all(e, var) -> bool:
+                if e is None:
+                    return False
+                if isinstance(e, ast.Call) and norm(e.func) in ("list", "tuple", "sorted") and e.args and norm(e.args[0]) == f"{var}.values()":
+                    return True
+                if isinstance(e, ast.BinOp) and isinstance(e.op, ast.Add):
+                    return _declares_all(e.left, var) or _declares_all(e.right, var)
+                if isinstance(e, (ast.List, ast.Tuple)):
+                    return any(isinstance(x, ast.Starred) and norm(x.value) == f"{var}.values()" for x in e.elts)
+                if isinstance(e, ast.Name):
+                    ds = cfg.reaching(at, e.id)
+                    return bool(ds) and all(d.value is not None and _declares_all(d.value, var) for d in ds)
+                return False
             if edge.variables is not None and isinstance(edge.variables, ast.Name):
-                if f"{edge.variables.id}.values()" in declared_txt:
+                if _declares_all(edge.inputs, edge.variables.id) or _declares_all(edge.implicit, edge.variables.id):
                     all_declared = True
+                else:
+                    # `[v for v in variables.values() if v != variables["k"]]`: everything but key k
+                    for e in (edge.inputs, edge.implicit):
+                        if isinstance(e, ast.ListComp) and len(e.generators) == 1 and norm(e.generators[0].iter) == f"{edge.variables.id}.values()" \
+                                and norm(e.elt) == norm(e.generators[0].target) and len(e.generators[0].ifs) == 1:
+                            t = e.generators[0].ifs[0]
+                            if isinstance(t, ast.Compare) and len(t.ops) == 1 and isinstance(t.ops[0], ast.NotEq):
+                                other = t.comparators[0] if norm(t.left) == norm(e.elt) else t.left
+                                if isinstance(other, ast.Name):
+                                    ds = cfg.reaching(at, other.id)
+                                    other = ds[0].value if len(ds) == 1 and ds[0].value is not None else other
+                                if isinstance(other, ast.Subscript) and norm(other.value) == edge.variables.id and isinstance(other.slice, ast.Constant):
+                                    excluded_keys = {other.slice.value}
+                                    partial_all = True
             if edge.variables is not None and isinstance(edge.variables, ast.Call) and callee_tail(edge.variables) == "_asdict":
                 base = norm(edge.variables.func.value)
                 if f"list({base})" in declared_txt or f"tuple({base})" in declared_txt:
@@ -168,6 +199,9 @@ def check_declared_inputs(model: Model, modname: str, rr: RuleResult):
                     t in norm(val) for t in ("rel_build(", "Path(", "_dest(", "_file(")))
                 if not is_path:
                     rr.ok(f"{fi.qualname} -> {rname}: ${k} is not a path")
+                    continue
+                if partial_all and k not in excluded_keys:
+                    rr.ok(f"{fi.qualname} -> {rname}: ${k} declared (all variable values but {sorted(excluded_keys)} are implicit inputs)")
                     continue
                 if all_declared or (helper_keys is not None and k in helper_keys):
                     rr.ok(f"{fi.qualname} -> {rname}: ${k} declared (all variable values are implicit inputs)" if all_declared else
@@ -345,9 +379,23 @@ def r09d(model: Model, rr: RuleResult):
 def r09d_impl(model: Model, rr: RuleResult):
     fi = model.func("ninja", "maybe_run_ninja")
     runs = [c for c in calls_in(fi) if norm(c.func) in ("subprocess.run", "subprocess.check_call", "subprocess.call")]
-    if len(runs) != 1:
-        raise AnalysisError("maybe_run_ninja: expected one subprocess call")
-    c = runs[0]
+    if not runs:
+        raise AnalysisError("maybe_run_ninja: no subprocess call")
+    cfg0 = cfg_of(fi)
+    tools = []
+    for r in runs:
+        _, ex = expr_closure(cfg0, cfg0.node_for(r), r.args[0]) if r.args else (set(), [])
+        consts = {n.value for e in ex for n in ast.walk(e) if isinstance(n, ast.Constant) and isinstance(n.value, str)}
+        if consts & {"-t", "restat", "cleandead", "recompact", "clean"}:
+            tools.append(r)
+    for r in tools:
+        rr.bad(fi, r, f"{short(r, 70)}: the driver runs a ninja tool that rewrites ninja's own bookkeeping (`-t restat` re-stamps every recorded output with its current "
+               f"mtime, so the half-written leftover of a killed step is taken for a finished one) - after an interruption the next run no longer converges to the clean build",
+               construct=f"maybe_run_ninja: ninja tool invocation {short(r, 50)}")
+    builds = [r for r in runs if r not in tools]
+    if len(builds) != 1:
+        raise AnalysisError("maybe_run_ninja: expected one ninja build invocation")
+    c = builds[0]
     ok = norm(c.func) == "subprocess.check_call" or (norm(c.func) == "subprocess.run" and kwarg(c, "check") is not None and norm(kwarg(c, "check")) == "True")
     if ok:
         rr.ok("maybe_run_ninja: subprocess.run(..., check=True)")
